@@ -105,6 +105,18 @@ def handleC20 (kind : String) (fs : List (String × String)) : String :=
   match kind with
   | "leak" => leak fs
   | "stuck" => stuck fs
+  | "alone" =>
+      let peers := getD fs "peers" ""
+      let res := getD fs "res" "?"
+      let took := (getNat fs "tookms").getD 0
+      let someoneThere := peers.toList.any fun c => c == 'a' || c == 's'
+      -- nothing is transmitted in this scenario (no gossip ticks): with a listener present Leave runs into its timeout
+      let want := if someoneThere then "err" else "nil"
+      let bad : Option String :=
+        if res == "panic" || res == "blocked" then some s!"Leave:{res}:peers={peers}"
+        else if !someoneThere && res != "nil" then some s!"Leave-waited-although-every-peer-has-gone:peers={peers},res={res},took={took}ms"
+        else none
+      verdict (res == want) bad (peers.length ≥ 2) s!"alone-{if someoneThere then "listener" else "empty"}" (if res == want then "" else s!"model={want}")
   | "api" => if (get fs "err").isSome then "PARSE create" else
       let bad := getD fs "bad" "-"
       let mm := tableMismatch (getD fs "table" "-")
